@@ -2,111 +2,1265 @@
 
 Engine interface (see harness/run_check.py):
   THEOREMS, LEVEL, RULE, BRANCHES, generate, run_impl, model_requests, model_result,
-  compare, oracle, features, nontrivial_key, (search, shrink optional)
+  compare, oracle, features, nontrivial_key, shrink
+
+Case kinds (`op`):
+  dual, correct1d  the two generated leaves on single numbers (exact)
+  contrast         util.matrix.pairwise_contrast(np.arange(m))
+  extract          util.inference_util.extract_variances on 0/1/2/3-D input (exact, Rat)
+  result           inference.result.Result accessors with the t-test (means, SEM, error bars,
+                   CI, variances, test_pairwise / test_zero / test_noise / test_all), on the
+                   models as given and in a permuted order
+  boot             the same accessors with test_type='bootstrap'
+  ranksum          ... with test_type='ranksum' (scipy.stats.wilcoxon is applied by the
+                   harness to the model's reduced data: contract)
+  evaluator        the evaluation functions of inference.evaluate (fixed, bootstrap, bootstrap_rdm,
+                   bootstrap_pattern, dual_bootstrap, bootstrap_crossval x 3 boot types) run on
+                   small seeded data: the variances / SEM of the returned Result against the
+                   stored covariance, corrected with the count(s) of the resampled factor(s) only
+  fixed            inference.evaluate.eval_fixed end to end (rsatoolbox.rdm.compare and the
+                   noise ceiling are replaced by the prescribed per-subject evaluations),
+                   optionally followed by Result.to_dict -> result_from_dict
 """
+import copy
+import itertools
+import math
+import warnings
 from fractions import Fraction as F
+
 import numpy as np
-from lean import rat, unrat
+import scipy.stats as sst
+
+from lean import rat, unrat, fbits, unfbits, deep, first_diff, close
 from rsatoolbox.util import inference_util as iu
+from rsatoolbox.util import matrix as rmatrix
+from rsatoolbox.inference import result as rresult
+from rsatoolbox.inference import evaluate as revaluate
+from rsatoolbox.model import ModelFixed
+from rsatoolbox.rdm import RDMs
 
 PROPERTY = 'C06'
 LEVEL = 'proof'
 P = 'Rsa.Props.C06.'
 THEOREMS = [P + n for n in (
+    # generated leaves: clamp bounds and the documented factor
     'dual_le_two_factor', 'dual_ge_single', 'dualN_le_two_factor', 'dualN_ge_single',
-    'correct1d_factor')]
-RULE = ('cases are generated from one PRNG: op in {dual, correct1d}, variances small '
-        'rationals (eighths), n_rdm / n_pattern None or 2..30; a case is non-trivial when the '
-        'clamp is active or a correction is applied; distinct = distinct (op, inputs)')
-BRANCHES = ['dual:plain', 'dual:small_sample', 'c1d:both', 'c1d:pattern', 'c1d:rdm', 'c1d:none']
-ASSUMPTIONS = ['numpy float64 evaluation of the leaf formulas is within 1e-9 relative of the exact value']
+    'correct1d_factor', 'correct_eq_factor', 'dual_bounds_all_branches',
+    # variances are contrasts of the stored covariance
+    'diff_var_contrast', 'nc_var_contrast', 'extract2_spec', 'extract1_spec', 'extract3_bounds',
+    'evaluator_factor',
+    # fixed evaluation = classical across-subject statistics
+    'fixed_sem_is_classical', 'fixed_vars_classical', 'fixed_vars_classical_one', 'fixed_dof',
+    'fixed_t_is_classical',
+    # p-values for an abstract CDF
+    'p_range', 'pairwise_symm', 'pairwise_diag_one', 'p_antitone_in_effect',
+    # bootstrap tests
+    'bootstrap_p_range', 'bootPairP_swap', 'bootstrap_pair_swap', 'bootstrap_mat_symm_diag',
+    'bootstrap_perm_equivariant', 'bootstrap_one_sided_range',
+    # means, standard errors
+    'means_nan_aware', 'means_drop_nan_rows', 'means_fixed_single_row', 'sem_nonneg',
+    # model permutations
+    'model_perm_equivariant', 'pairwise_perm_equivariant',
+    # rank-sum tests (partial)
+    'ranksum_mat_symm_diag_partial')]
+RULE = ('cases come from one PRNG. dual/correct1d: variances in eighths, n_rdm/n_pattern None or '
+        '2..30. contrast: m = 1..7. extract: covariance input 0/1/2/3-D (symmetric PSD in '
+        'eighths, sometimes arbitrary), with/without the two noise-ceiling rows, 1..6 models. '
+        'result/boot/ranksum: Result objects with evaluation arrays of 2..5 dimensions (whole-row '
+        'NaN = failed bootstrap samples, NaN folds inside the trailing axes), every kind of '
+        'variance input or none, noise ceilings (2,) or (2,N), dof 1..30, a random model '
+        'permutation. fixed: eval_fixed with 1..4 models, 2..9 subjects, optionally reloaded '
+        'from its dict. evaluator: every evaluation function on 3..9 RDMs of 4..6 conditions '
+        '(both orders of the two counts), 1..3 fixed models, 6..10 bootstrap samples, seeded. A case is non-trivial unless it is an uncorrected single number or has '
+        'one model without variances; distinct = distinct full input.')
+BRANCHES = ['dual:plain', 'dual:small_sample', 'dual:one_n', 'c1d:both', 'c1d:pattern', 'c1d:rdm',
+            'c1d:none', 'contrast', 'extract:0d', 'extract:1d', 'extract:1d_nc', 'extract:2d',
+            'extract:2d_nc', 'extract:3d', 'extract:3d_nc', 'extract:3d_small_sample',
+            'result:var_none', 'result:var_0d', 'result:var_1d', 'result:var_2d', 'result:var_3d',
+            'result:nc_rows', 'result:nan_rows', 'result:nan_folds', 'result:ndim2',
+            'result:ndim3', 'result:ndim4', 'result:ndim5', 'result:fixed', 'result:perm',
+            'boot:nan_rows', 'boot:nc_per_sample', 'boot:nc_scalar', 'boot:ndim3', 'ranksum',
+            'fixed:one_model', 'fixed:multi', 'fixed:reload',
+            'evaluator:fixed', 'evaluator:bootstrap', 'evaluator:bootstrap_rdm',
+            'evaluator:bootstrap_pattern', 'evaluator:dual_bootstrap', 'evaluator:bootstrap_crossval',
+            'evaluator:bootstrap_crossval_rdm', 'evaluator:bootstrap_crossval_pattern',
+            'evaluator:n_cond_lt_n_rdm', 'evaluator:n_rdm_lt_n_cond']
+ASSUMPTIONS = [
+    'numpy float64 evaluation of the closed-form formulas is within 1e-9 relative of the exact value',
+    'scipy.stats.t.cdf / t.ppf (contract: monotone, F(0)=1/2, range [0,1]) are applied by the '
+    'harness to the t statistics of the model; the contract is sampled in the oracle',
+    'scipy.stats.wilcoxon (contract: symmetric in its two samples, p in [0,1]) is applied by the '
+    'harness to the reduced data of the model (rank-sum part: partial)',
+    'evaluation arrays: a failed bootstrap sample is a whole row of NaN (as every evaluator '
+    'writes it); NaN inside the trailing axes leaves at least one value per (sample, model)']
+TRUSTED_EXTRA = ['scipy.stats.t.cdf, t.ppf, wilcoxon, ttest_1samp, ttest_rel, sem (reference in the oracle)']
+
+EPS = float(np.finfo(float).eps)
+RTOL, ATOL = 1e-9, 1e-12
+PRTOL, PATOL = 1e-7, 1e-12      # p-values: 1 - cdf amplifies rounding of t
 
 
-def _q(rng, lo=0, hi=40):
-    return F(rng.randint(lo, hi), 8)
+# ---------------------------------------------------------------- small helpers
+
+def _q(rng, lo=0, hi=40, den=8):
+    return rng.randint(lo, hi) / den
+
+
+def _opt_n(rng):
+    return rng.choice([None, rng.randint(2, 30)])
+
+
+def _arr(x):
+    """nested list with None -> float array with NaN"""
+    return np.array(deep(lambda v: np.nan if v is None else float(v), x), dtype=float)
+
+
+def _lst(a):
+    """array -> nested list, NaN -> None (JSON-serialisable, exact for doubles)"""
+    if a is None:
+        return None
+    a = np.asarray(a, dtype=float)
+    return deep(lambda v: None if (isinstance(v, float) and math.isnan(v)) else float(v), a) \
+        if a.ndim else (None if math.isnan(float(a)) else float(a))
+
+
+def _psd(rng, k, den=8):
+    a = np.array([[rng.randint(-3, 3) for _ in range(k)] for _ in range(k)], dtype=float)
+    return (a @ a.T) / den
+
+
+def _catch(fn):
+    with warnings.catch_warnings():
+        warnings.simplefilter('ignore')
+        try:
+            return fn()
+        except (ValueError, TypeError, AssertionError, IndexError, ZeroDivisionError) as exc:
+            return {'exc': type(exc).__name__}
+
+
+def _canon(x):
+    if isinstance(x, dict):
+        return x
+    if x is None:
+        return None
+    if isinstance(x, (tuple, list)):
+        return [_canon(y) for y in x]
+    return _lst(x)
+
+
+def _perm_var(var, perm, nc):
+    """covariance input with the models permuted (noise-ceiling rows stay last)"""
+    if var is None:
+        return None
+    v = np.asarray(var, dtype=float)
+    if v.ndim == 0:
+        return v
+    idx = list(perm) + ([len(perm), len(perm) + 1] if nc else [])
+    if v.ndim == 1:
+        return v[idx]
+    if v.ndim == 2:
+        return v[np.ix_(idx, idx)]
+    return v[:, idx][:, :, idx]
+
+
+def _models(m):
+    return [ModelFixed(f'm{i}', np.arange(3.0) + i) for i in range(m)]
+
+
+# ---------------------------------------------------------------- generators
+
+def _gen_var(rng, m, kind, nc):
+    k = m + (2 if nc else 0)
+    if kind == 'none':
+        return None
+    if kind == '0d':
+        return _q(rng, 1, 40)
+    if kind == '1d':
+        return [_q(rng, 1, 40) for _ in range(k)]
+    if kind == '2d':
+        if rng.random() < 0.2:      # arbitrary (not symmetric) matrix: the code does not require symmetry
+            return [[_q(rng, -16, 40) for _ in range(k)] for _ in range(k)]
+        return _psd(rng, k).tolist()
+    v1, v2 = _psd(rng, k), _psd(rng, k)
+    r = rng.random()
+    if r < 0.5:
+        v0 = v1 + v2 + _psd(rng, k) / 2
+    elif r < 0.75:
+        v0 = v1 + v2 - _psd(rng, k) / 4
+    else:
+        v0 = _psd(rng, k)
+    return [v0.tolist(), v1.tolist(), v2.tolist()]
+
+
+def _gen_evals(rng, nB, m, shape, nan_rows=True, nan_folds=True, den=16, lo=-8, hi=16):
+    a = np.array([rng.randint(lo, hi) / den for _ in range(nB * m * int(np.prod(shape or [1])))],
+                 dtype=float).reshape([nB, m] + list(shape))
+    if nan_folds and shape and rng.random() < 0.5:
+        flat = a.reshape(nB, m, -1)
+        for r in range(nB):
+            for j in range(m):
+                for t in range(flat.shape[2]):
+                    if rng.random() < 0.15:
+                        flat[r, j, t] = np.nan
+                if np.all(np.isnan(flat[r, j])):
+                    flat[r, j, rng.randrange(flat.shape[2])] = rng.randint(lo, hi) / den
+        # every slice along each trailing axis keeps a value so that nested nanmeans exist
+        a = flat.reshape([nB, m] + list(shape))
+    if nan_rows and nB >= 3 and rng.random() < 0.5:
+        for r in rng.sample(range(nB), rng.randint(1, max(1, nB // 3))):
+            a[r] = np.nan
+    return a
+
+
+def _gen_result(rng, tier):
+    m = rng.randint(1, 5)
+    cv = rng.choice(['fixed', 'crossvalidation', 'bootstrap', 'bootstrap_rdm', 'bootstrap_pattern',
+                     'bootstrap_crossval', 'dual_bootstrap'])
+    if cv in ('fixed', 'crossvalidation'):
+        nB, shape = 1, [rng.randint(2, 7)]
+        ev = _gen_evals(rng, nB, m, shape, nan_rows=False)
+    else:
+        nB = rng.randint(3, 10)
+        nd = rng.choice([2, 3, 4, 5]) if cv in ('bootstrap_crossval', 'dual_bootstrap') else rng.choice([2, 2, 3])
+        shape = [[], [rng.randint(1, 4)], [rng.randint(1, 3), rng.randint(1, 2)],
+                 [rng.randint(1, 3), rng.randint(1, 2), 3]][nd - 2]
+        ev = _gen_evals(rng, nB, m, shape)
+    kinds = ['0d', '0d', '1d', '2d', '3d'] if m == 1 else ['1d', '2d', '2d', '3d']
+    kind = 'none' if cv == 'crossvalidation' or rng.random() < 0.06 else rng.choice(kinds)
+    nc = kind in ('1d', '2d', '3d') and rng.random() < 0.5
+    var = _gen_var(rng, m, kind, nc)
+    if rng.random() < 0.5 and nB > 1:
+        ncl = np.array([[rng.randint(0, 16) / 16 for _ in range(nB)],
+                        [rng.randint(16, 24) / 16 for _ in range(nB)]])
+        ncl[:, np.isnan(ev.reshape(nB, -1)[:, 0])] = np.nan
+        if np.all(np.isnan(ncl)):
+            ncl = np.array([0.5, 0.75])
+    else:
+        ncl = np.array([rng.randint(0, 16) / 16, rng.randint(16, 24) / 16])
+    perm = list(range(m))
+    rng.shuffle(perm)
+    return {'op': 'result', 'cv_method': cv, 'evals': _lst(ev), 'var': var, 'var_kind': kind,
+            'nc_rows': nc, 'noise_ceiling': _lst(ncl), 'dof': rng.randint(1, 30),
+            'n_rdm': _opt_n(rng), 'n_pattern': _opt_n(rng), 'perm': perm}
+
+
+def _gen_boot(rng, tier):
+    m = rng.randint(1, 5)
+    nB = rng.randint(3, 12)
+    shape = rng.choice([[], [], [], [rng.randint(1, 3)], [2, 2]])
+    # a coarse grid makes ties between models frequent; shifting decides how often all
+    # samples lie on one side of zero / of the noise ceiling
+    lo = rng.choice([-8, -8, -2, 1, -12])
+    hi = rng.choice([8, 4, -1]) if lo == -12 else lo + rng.choice([6, 12, 20])
+    ev = _gen_evals(rng, nB, m, shape, den=rng.choice([2, 4, 16]), lo=lo, hi=hi,
+                    nan_folds=rng.random() < 0.5)
+    r = rng.random()
+    if r < 0.5:
+        ncl = np.array([[rng.randint(-4, 12) / 8 for _ in range(nB)],
+                        [rng.randint(12, 20) / 8 for _ in range(nB)]])
+        ncl[:, np.isnan(ev.reshape(nB, -1)[:, 0])] = np.nan
+    else:
+        ncl = np.array([rng.randint(-12, 12) / 8, 2.0])
+    perm = list(range(m))
+    rng.shuffle(perm)
+    return {'op': 'boot', 'evals': _lst(ev), 'noise_ceiling': _lst(ncl), 'perm': perm}
+
+
+def _gen_ranksum(rng, tier):
+    m = rng.randint(1, 4)
+    nB = rng.randint(1, 4)
+    n = rng.randint(6, 10)
+    # generic (non-dyadic) values: no exact ties / zeros for wilcoxon
+    ev = np.array([rng.uniform(-0.3, 0.9) for _ in range(nB * m * n)]).reshape(nB, m, n)
+    if nB >= 3 and rng.random() < 0.5:
+        ev[rng.randrange(nB)] = np.nan
+    perm = list(range(m))
+    rng.shuffle(perm)
+    return {'op': 'ranksum', 'evals': _lst(ev), 'noise_ceiling': [rng.uniform(0.2, 0.6), 0.95], 'perm': perm}
+
+
+def _gen_fixed(rng, tier):
+    m = rng.choice([1, 2, 2, 3, 4])
+    n = rng.randint(2, 9)
+    x = [[rng.randint(-16, 48) / 64 for _ in range(n)] for _ in range(m)]
+    if rng.random() < 0.08:
+        x[0] = [x[0][0]] * n        # a model with identical evaluations in all subjects
+    return {'op': 'fixed', 'x': x, 'n_cond': rng.randint(3, 12),
+            'nc': [rng.randint(16, 48) / 64, rng.randint(48, 64) / 64],
+            'reload': rng.random() < 0.3}
+
+
+EVALUATORS = ['fixed', 'bootstrap', 'bootstrap_rdm', 'bootstrap_pattern', 'dual_bootstrap',
+              'bootstrap_crossval', 'bootstrap_crossval_rdm', 'bootstrap_crossval_pattern']
+
+
+def _gen_evaluator(rng, tier):
+    which = rng.choice(EVALUATORS)
+    n_cond = rng.randint(4, 6)
+    n_rdm = rng.choice([3, 4, 5, 7, 8, 9])
+    npair = n_cond * (n_cond - 1) // 2
+    return {'op': 'evaluator', 'which': which, 'n_rdm': n_rdm, 'n_cond': n_cond,
+            'data': [[rng.randint(1, 32) / 8 for _ in range(npair)] for _ in range(n_rdm)],
+            'models': [[rng.randint(1, 32) / 8 for _ in range(npair)] for _ in range(rng.randint(1, 3))],
+            'N': rng.randint(6, 10), 'seed': rng.randint(0, 10 ** 6)}
+
+
+def _gen_extract(rng, tier):
+    kind = rng.choice(['0d', '1d', '1d', '2d', '2d', '2d', '3d', '3d', '3d'])
+    m = 1 if kind == '0d' else rng.randint(1, 6)
+    nc = kind != '0d' and rng.random() < 0.5
+    return {'op': 'extract', 'var': _gen_var(rng, m, kind, nc), 'var_kind': kind, 'nc': nc, 'm': m,
+            'n_rdm': _opt_n(rng), 'n_pattern': _opt_n(rng)}
 
 
 def generate(rng, tier):
-    n = 150 if tier == 'quick' else 5000
-    for _ in range(n):
-        nr = rng.choice([None, rng.randint(2, 30)])
-        npat = rng.choice([None, rng.randint(2, 30)])
+    mult = 2 if tier == 'quick' else 60
+    for _ in range(50 * mult):
+        nr, npat = _opt_n(rng), _opt_n(rng)
         if rng.random() < 0.5:
-            v1, v2 = _q(rng), _q(rng)
-            # the two-factor variance is usually, not always, the largest
-            v0 = v1 + v2 + _q(rng, -16, 24)
+            v1, v2 = F(rng.randint(0, 40), 8), F(rng.randint(0, 40), 8)
+            v0 = v1 + v2 + F(rng.randint(-16, 24), 8)
             yield {'op': 'dual', 'v': [rat(v0), rat(v1), rat(v2)], 'n_rdm': nr, 'n_pattern': npat}
         else:
-            yield {'op': 'correct1d', 'v': rat(_q(rng)), 'n_rdm': nr, 'n_pattern': npat}
+            yield {'op': 'correct1d', 'v': rat(F(rng.randint(0, 40), 8)), 'n_rdm': nr, 'n_pattern': npat}
+    for m in range(1, 8 if tier == 'quick' else 13):
+        yield {'op': 'contrast', 'm': m}
+    for _ in range(120 * mult):
+        yield _gen_extract(rng, tier)
+    for _ in range(130 * mult):
+        yield _gen_result(rng, tier)
+    for _ in range(70 * mult):
+        yield _gen_boot(rng, tier)
+    for _ in range(16 * mult):
+        yield _gen_ranksum(rng, tier)
+    for _ in range(50 * mult):
+        yield _gen_fixed(rng, tier)
+    for _ in range(40 * mult):
+        yield _gen_evaluator(rng, tier)
 
+
+def search(rng, tier):
+    """failing-input search: the Result-level kinds first (they exercise every leaf too)"""
+    gens = [_gen_boot, _gen_result, _gen_fixed, _gen_extract, _gen_evaluator, _gen_ranksum]
+    k = 0
+    while True:
+        yield gens[k % len(gens)](rng, tier)
+        k += 1
+        if k % 7 == 0:
+            nr, npat = _opt_n(rng), _opt_n(rng)
+            v1, v2 = F(rng.randint(0, 40), 8), F(rng.randint(0, 40), 8)
+            yield {'op': 'dual', 'v': [rat(v1 + v2 + F(rng.randint(-16, 24), 8)), rat(v1), rat(v2)],
+                   'n_rdm': nr, 'n_pattern': npat}
+            yield {'op': 'correct1d', 'v': rat(F(rng.randint(1, 40), 8)), 'n_rdm': nr, 'n_pattern': npat}
+
+
+# ---------------------------------------------------------------- implementation side
 
 def _fl(x):
     return float(unrat(x))
 
 
+def _mk_result(case, perm=None):
+    ev = _arr(case['evals'])
+    m = ev.shape[1]
+    var = None if case.get('var') is None else np.array(case['var'], dtype=float)
+    if perm is not None:
+        ev = ev[:, perm]
+        var = _perm_var(var, perm, case.get('nc_rows', False))
+    ncl = _arr(case['noise_ceiling'])
+    return rresult.Result(_models(m), ev, 'cosine', case.get('cv_method', 'bootstrap'), ncl,
+                          variances=var, dof=case.get('dof', 1),
+                          n_rdm=case.get('n_rdm'), n_pattern=case.get('n_pattern'))
+
+
+def _result_obs(case, test_type, perm=None):
+    """everything C06 speaks about, read off one Result object"""
+    def build():
+        r = _mk_result(case, perm)
+        out = {'means': _canon(_catch(r.get_means)),
+               'sem': _canon(_catch(r.get_sem)),
+               'errorbars': _canon(_catch(lambda: r.get_errorbars('sem'))),
+               'model_var': _canon(r.model_var), 'diff_var': _canon(r.diff_var),
+               'nc_var': _canon(r.noise_ceil_var)}
+        if test_type == 't-test':
+            out['ci'] = _canon(_catch(lambda: r.get_ci(0.95, 't-test'))) if r.model_var is not None else None
+            # the helper the plotting code uses for the same error bars
+            out['errorbars_util'] = _canon(_catch(lambda: iu.get_errorbars(
+                r.model_var, r.evaluations, r.dof, 'sem', 't-test'))) if r.model_var is not None else None
+        out['p_pair'] = _canon(_catch(lambda: r.test_pairwise(test_type)))
+        out['p_zero'] = _canon(_catch(lambda: r.test_zero(test_type)))
+        out['p_nc'] = _canon(_catch(lambda: r.test_noise(test_type)))
+        # test_all must report the same three things
+        out['p_all'] = _canon(_catch(lambda: list(r.test_all(test_type))))
+        return out
+    return _catch(build)
+
+
+class _FixedPatch:
+    """eval_fixed with the per-subject evaluations prescribed: `compare` returns the row of
+    the model it is called with, `boot_noise_ceiling` the prescribed ceiling."""
+
+    def __init__(self, x, nc):
+        self.x, self.nc = x, nc
+
+    def __enter__(self):
+        self.saved = (revaluate.compare, revaluate.boot_noise_ceiling)
+        x = self.x
+        revaluate.compare = lambda pred, data, method=None: np.array(
+            x[int(round(float(pred.dissimilarities[0, 0])))], dtype=float)
+        revaluate.boot_noise_ceiling = lambda data, method=None, rdm_descriptor=None: (self.nc[0], self.nc[1])
+        return self
+
+    def __exit__(self, *a):
+        revaluate.compare, revaluate.boot_noise_ceiling = self.saved
+
+
+def _fixed_obs(case):
+    def build():
+        x = case['x']
+        m, n, c = len(x), len(x[0]), case['n_cond']
+        npair = c * (c - 1) // 2
+        data = RDMs(np.arange(n * npair, dtype=float).reshape(n, npair) + 1)
+        models = [ModelFixed(f'm{k}', np.full(npair, float(k))) for k in range(m)]
+        with _FixedPatch(x, case['nc']):
+            r = revaluate.eval_fixed(models, data, method='cosine')
+        if case.get('reload'):
+            r = rresult.result_from_dict(copy.deepcopy(r.to_dict()))
+        return {'evaluations': _canon(r.evaluations), 'dof': int(r.dof),
+                'variances': _canon(r.variances),
+                'means': _canon(_catch(r.get_means)), 'sem': _canon(_catch(r.get_sem)),
+                'model_var': _canon(r.model_var), 'diff_var': _canon(r.diff_var),
+                'nc_var': _canon(r.noise_ceil_var),
+                'p_pair': _canon(_catch(lambda: r.test_pairwise('t-test'))),
+                'p_zero': _canon(_catch(lambda: r.test_zero('t-test'))),
+                'p_nc': _canon(_catch(lambda: r.test_noise('t-test')))}
+    return _catch(build)
+
+
+_EVAL_CACHE = {}
+
+
+def _run_evaluator(case):
+    """the real evaluation function on the case's data; returns the Result (seeded draws)"""
+    key = repr(sorted(case.items()))
+    if key in _EVAL_CACHE:
+        return _EVAL_CACHE[key]
+    data = RDMs(np.array(case['data'], dtype=float))
+    models = [ModelFixed(f'm{k}', np.array(v, dtype=float)) for k, v in enumerate(case['models'])]
+    which, N = case['which'], case['N']
+    state = np.random.get_state()
+    np.random.seed(case['seed'])
+    try:
+        with warnings.catch_warnings():
+            warnings.simplefilter('ignore')
+            if which == 'fixed':
+                r = revaluate.eval_fixed(models, data, method='cosine')
+            elif which == 'bootstrap':
+                r = revaluate.eval_bootstrap(models, data, method='cosine', N=N)
+            elif which == 'bootstrap_rdm':
+                r = revaluate.eval_bootstrap_rdm(models, data, method='cosine', N=N)
+            elif which == 'bootstrap_pattern':
+                r = revaluate.eval_bootstrap_pattern(models, data, method='cosine', N=N)
+            elif which == 'dual_bootstrap':
+                r = revaluate.eval_dual_bootstrap(models, data, method='cosine', N=N)
+            else:
+                bt = {'bootstrap_crossval': 'both', 'bootstrap_crossval_rdm': 'rdm',
+                      'bootstrap_crossval_pattern': 'pattern'}[which]
+                r = revaluate.bootstrap_crossval(models, data, method='cosine', N=N, k_rdm=2,
+                                                 k_pattern=1, n_cv=2, boot_type=bt)
+    finally:
+        np.random.set_state(state)
+    if len(_EVAL_CACHE) > 20000:
+        _EVAL_CACHE.clear()
+    _EVAL_CACHE[key] = r
+    return r
+
+
+def _evaluator_obs(case):
+    def build():
+        r = _run_evaluator(case)
+        return {'variances': _canon(r.variances), 'n_rdm': r.n_rdm, 'n_pattern': r.n_pattern,
+                'model_var': _canon(r.model_var), 'diff_var': _canon(r.diff_var),
+                'nc_var': _canon(r.noise_ceil_var), 'sem': _canon(_catch(r.get_sem))}
+    return _catch(build)
+
+
 def run_impl(case):
-    if case['op'] == 'dual':
+    op = case['op']
+    if op == 'dual':
         v = np.array([_fl(x) for x in case['v']])
         return float(iu._dual_bootstrap(v, case['n_rdm'], case['n_pattern']))
-    return float(iu._correct_1d(np.array(_fl(case['v'])), case['n_pattern'], case['n_rdm']))
+    if op == 'correct1d':
+        return float(iu._correct_1d(np.array(_fl(case['v'])), case['n_pattern'], case['n_rdm']))
+    if op == 'contrast':
+        return _canon(rmatrix.pairwise_contrast(np.arange(case['m'])))
+    if op == 'extract':
+        def f():
+            mv, dv, nv = iu.extract_variances(np.array(case['var'], dtype=float), case['nc'],
+                                              case['n_rdm'], case['n_pattern'])
+            return {'model': _canon(mv), 'diff': _canon(dv), 'nc': _canon(nv)}
+        return _catch(f)
+    if op in ('result', 'boot', 'ranksum'):
+        tt = {'result': 't-test', 'boot': 'bootstrap', 'ranksum': 'ranksum'}[op]
+        return {'id': _result_obs(case, tt), 'perm': _result_obs(case, tt, case['perm'])}
+    if op == 'fixed':
+        return _fixed_obs(case)
+    if op == 'evaluator':
+        return _evaluator_obs(case)
+    raise ValueError(op)
+
+
+# ---------------------------------------------------------------- model side
+
+def _enc(x):
+    return deep(fbits, x)
+
+
+def _shape_of(ev):
+    s = []
+    while isinstance(ev, list):
+        s.append(len(ev))
+        ev = ev[0] if ev else None
+    return s
+
+
+def _var_req(case, var, m):
+    v = np.asarray(var, dtype=float)
+    return {'var': _enc(v.tolist()) if v.ndim else fbits(float(v)), 'ndim': int(v.ndim),
+            'last_dim': int(v.shape[-1]) if v.ndim else 0,
+            'n_rdm': fbits(case.get('n_rdm')), 'n_pattern': fbits(case.get('n_pattern'))}
+
+
+def _result_req(case, perm=None):
+    ev = _arr(case['evals'])
+    var = None if case.get('var') is None else np.array(case['var'], dtype=float)
+    if perm is not None:
+        ev = ev[:, perm]
+        var = _perm_var(var, perm, case.get('nc_rows', False))
+    sh = list(ev.shape)
+    ncl = _arr(case['noise_ceiling'])
+    req = {'evals': _enc(_lst(ev)), 'nB': sh[0], 'm': sh[1], 'shape': sh[2:]}
+    if case['op'] == 'result':
+        req.update(op='c06.result', cv_method=case['cv_method'],
+                   nc_lower=_enc(_lst(np.atleast_1d(ncl[0]).ravel())))
+        if var is not None:
+            req.update(_var_req(case, var, sh[1]))
+    elif case['op'] == 'boot':
+        req.update(op='c06.boot', nc_rows=_enc(_lst(np.atleast_1d(ncl[0]).ravel())))
+    else:
+        req.update(op='c06.ranksum', n=sh[2])
+    return req
 
 
 def model_requests(case):
-    return [dict(case, op='c06.' + case['op'])]
+    op = case['op']
+    if op in ('dual', 'correct1d', 'contrast'):
+        return [dict(case, op='c06.' + op)]
+    if op == 'extract':
+        v = np.array(case['var'], dtype=float)
+        return [{'op': 'c06.extract', 'var': deep(rat, v.tolist()) if v.ndim else rat(float(v)),
+                 'ndim': int(v.ndim), 'm': case['m'], 'nc': case['nc'],
+                 'n_rdm': case['n_rdm'], 'n_pattern': case['n_pattern']}]
+    if op in ('result', 'boot', 'ranksum'):
+        return [_result_req(case), _result_req(case, case['perm'])]
+    if op == 'evaluator':
+        # the stored covariance is an output of the seeded run; it is the model's input
+        o = _evaluator_obs(case)
+        if _is_exc(o) or o['variances'] is None or _has_none(o['variances']):
+            return [{'op': 'c06.evaluator', 'cv': 'unavailable', 'var': None, 'ndim': 0, 'last_dim': 0,
+                     'm': 0, 'n_rdm': 0, 'n_cond': 0}]
+        v = np.asarray(_arr(o['variances']), dtype=float)
+        return [{'op': 'c06.evaluator', 'cv': case['which'],
+                 'var': _enc(_lst(v)) if v.ndim else fbits(float(v)), 'ndim': int(v.ndim),
+                 'last_dim': int(v.shape[-1]) if v.ndim else 0, 'm': len(case['models']),
+                 'n_rdm': fbits(case['n_rdm']), 'n_cond': fbits(case['n_cond'])}]
+    if op == 'fixed':
+        x = case['x']
+        return [{'op': 'c06.fixed', 'x': _enc(x), 'm': len(x), 'n': len(x[0]),
+                 'nc_lower': fbits(case['nc'][0])}]
+    raise ValueError(op)
+
+
+def _un(x):
+    return deep(unfbits, x)
+
+
+def _p_from_t(t, dof):
+    """the contract: scipy's Student-t CDF applied to the model's statistics"""
+    if t is None:
+        return {'exc': 'ValueError'}
+    with warnings.catch_warnings():
+        warnings.simplefilter('ignore')
+        pair = (2 * (1 - sst.t.cdf(np.array(_un(t['pair']), dtype=float), dof))).tolist() \
+            if t['pair'] is not None else None
+        zero = (1 - sst.t.cdf(np.array(_un(t['zero']), dtype=float), dof)).tolist() \
+            if t['zero'] is not None else None
+        nc = (2 * (1 - sst.t.cdf(np.array(_un(t['nc']), dtype=float), dof))).tolist() \
+            if t.get('nc') is not None else None
+    return pair, zero, nc
+
+
+def _vars_model(v):
+    return {'model_var': _un(v['model']), 'diff_var': _un(v['diff']), 'nc_var': _un(v['nc'])}
+
+
+def _result_model(case, a):
+    if isinstance(a, dict) and 'model_error' in a:
+        return a
+    op = case['op']
+    if op == 'result':
+        out = {'means': _un(a['means'])}
+        if a.get('vars') is None:
+            no = {'exc': 'ValueError'}
+            out.update(sem=None, errorbars=[None, None], errorbars_util=None, model_var=None, diff_var=None, nc_var=None,
+                       ci=None, p_pair=no, p_zero=no, p_nc=no, p_all=no)
+            return out
+        out.update(_vars_model(a['vars']))
+        sem = _un(a['sem'])
+        out.update(sem=sem, errorbars=[sem, sem], errorbars_util=[sem, sem])
+        q = float(sst.t.ppf(0.025, case['dof']))
+        mm = out['means']
+        out['ci'] = [[mi + s * q for mi, s in zip(mm, sem)], [mi - s * q for mi, s in zip(mm, sem)]]
+        pair, zero, nc = _p_from_t(a['t'], case['dof'])
+        out.update(p_pair=pair, p_zero=zero, p_nc=nc, p_all=[pair, zero, nc])
+        return out
+    if op == 'boot':
+        pair = _un(a['pair'])
+        zero = _un(a['zero']) if 'zero' in a else None
+        nc = _un(a['nc']) if 'nc' in a else None
+        return {'p_pair': pair, 'p_zero': zero, 'p_nc': nc, 'p_all': [pair, zero, nc]}
+    # ranksum: the external test is applied to the model's reduced data
+    data = [np.array(_un(row), dtype=float) for row in a]
+    m = len(data)
+    c = float(np.nanmean(_arr(case['noise_ceiling'])[0]))
+    with warnings.catch_warnings():
+        warnings.simplefilter('ignore')
+        pair = [[1.0 if i == j else float(sst.wilcoxon(data[min(i, j)], data[max(i, j)]).pvalue)
+                 for j in range(m)] for i in range(m)]
+        zero = [float(sst.wilcoxon(d - 0).pvalue) for d in data]
+        nc = [float(sst.wilcoxon(d - c).pvalue) for d in data]
+    return {'p_pair': pair, 'p_zero': zero, 'p_nc': nc, 'p_all': [pair, zero, nc]}
 
 
 def model_result(case, answers):
-    return answers[0]
+    op = case['op']
+    a = answers[0]
+    if op in ('dual', 'correct1d', 'contrast'):
+        return a
+    if op == 'evaluator' and isinstance(a, dict) and 'model_error' in a \
+            and 'unavailable' in str(a['model_error']):
+        return {'unavailable': True}      # the run produced no defined covariance
+    if isinstance(a, dict) and 'model_error' in a:
+        return a
+    if op == 'extract':
+        return {k: deep(lambda z: float(unrat(z)), a[k]) for k in ('model', 'diff', 'nc')}
+    if op in ('result', 'boot', 'ranksum'):
+        return {'id': _result_model(case, answers[0]), 'perm': _result_model(case, answers[1])}
+    if op == 'evaluator':
+        if isinstance(a, dict) and 'model_error' in a:
+            return {'unavailable': True}
+        out = _vars_model(a['vars'])
+        out['sem'] = _un(a['sem'])
+        return out
+    if op == 'fixed':
+        n = len(case['x'][0])
+        out = {'dof': a['dof'], 'means': _un(a['means']), 'sem': _un(a['sem']), 'cov': _un(a['cov'])}
+        out.update(_vars_model(a['vars']))
+        pair, zero, nc = _p_from_t(a['t'], n - 1)
+        out.update(p_pair=pair, p_zero=zero, p_nc=nc)
+        return out
+    raise ValueError(op)
 
 
-def compare(case, impl, model):
-    if isinstance(model, dict):
-        return f'model error {model}'
-    m = float(unrat(model))
-    if abs(impl - m) > 1e-12 + 1e-9 * max(abs(impl), abs(m)):
-        return f'impl {impl!r} != model {model}'
+# ---------------------------------------------------------------- comparison
+
+RESULT_KEYS = {'result': ['means', 'sem', 'errorbars', 'errorbars_util', 'model_var', 'diff_var', 'nc_var', 'ci',
+                          'p_pair', 'p_zero', 'p_nc', 'p_all'],
+               'boot': ['p_pair', 'p_zero', 'p_nc', 'p_all'],
+               'ranksum': ['p_pair', 'p_zero', 'p_nc', 'p_all']}
+
+
+def _cmp_obs(op, impl, model, where):
+    if isinstance(impl, dict) and 'exc' in impl:
+        return f'{where}: implementation raised {impl["exc"]} building the Result'
+    for k in RESULT_KEYS[op]:
+        a, b = impl.get(k), model.get(k)
+        if op == 'boot' and b is None:
+            continue        # >2-D evaluations: zero / ceiling bootstrap tests are not defined per model
+        if op == 'boot' and k == 'p_all' and isinstance(b, list) and (b[1] is None or b[2] is None):
+            continue
+        if _is_exc(a) and _is_exc(b):
+            continue        # both refuse (no variance estimates); the exception type is not compared
+        tol = (PRTOL, PATOL) if k.startswith('p_') else (RTOL, ATOL)
+        d = first_diff(a, b, *tol, path=f'{where}.{k}')
+        if d:
+            return d
     return None
 
 
+def compare(case, impl, model):
+    op = case['op']
+    if isinstance(model, dict) and 'model_error' in model:
+        return f'model error {model}'
+    if op in ('dual', 'correct1d'):
+        m = float(unrat(model))
+        return None if close(impl, m, RTOL, ATOL) else f'impl {impl!r} != model {model}'
+    if op == 'contrast':
+        return first_diff(impl, [[float(x) for x in r] for r in model], 0, 0, 'C')
+    if op == 'extract':
+        if isinstance(impl, dict) and 'exc' in impl:
+            return f'implementation raised {impl["exc"]}'
+        return first_diff(impl, model, RTOL, ATOL, 'extract')
+    if op in ('result', 'boot', 'ranksum'):
+        for w in ('id', 'perm'):
+            if isinstance(model[w], dict) and 'model_error' in model[w]:
+                return f'model error {model[w]}'
+            d = _cmp_obs(op, impl[w], model[w], w)
+            if d:
+                return d
+        return None
+    if op == 'evaluator':
+        if 'exc' in impl:
+            return f'implementation raised {impl["exc"]}'
+        if impl['variances'] is None or _has_none(impl['variances']):
+            return None         # no (defined) covariance estimate: nothing to compare
+        for k in ('model_var', 'diff_var', 'nc_var', 'sem'):
+            d = first_diff(impl[k], model[k], RTOL, ATOL, k)
+            if d:
+                return d
+        return None
+    if op == 'fixed':
+        if 'exc' in impl:
+            return f'implementation raised {impl["exc"]}'
+        if impl['evaluations'] != [case['x']]:
+            return 'eval_fixed did not store the prescribed evaluations'
+        if impl['dof'] != model['dof']:
+            return f'dof {impl["dof"]} != {model["dof"]}'
+        m = len(case['x'])
+        want_var = model['cov'][0][0] if m == 1 else model['cov']
+        d = first_diff(impl['variances'], want_var, RTOL, ATOL, 'variances')
+        if d:
+            return d
+        for k in ('means', 'sem', 'model_var', 'diff_var', 'nc_var', 'p_pair', 'p_zero', 'p_nc'):
+            tol = (PRTOL, PATOL) if k.startswith('p_') else (RTOL, ATOL)
+            d = first_diff(impl[k], model[k], *tol, path=k)
+            if d:
+                return d
+        return None
+    raise ValueError(op)
+
+
+# ---------------------------------------------------------------- features
+
 def features(case, impl):
-    if case['op'] == 'dual':
-        b = 'dual:small_sample' if case['n_rdm'] and case['n_pattern'] else 'dual:plain'
-    else:
-        b = 'c1d:' + ('both' if case['n_rdm'] and case['n_pattern'] else
-                      'pattern' if case['n_pattern'] else 'rdm' if case['n_rdm'] else 'none')
-    return {'op': case['op'], 'branches': [b]}
+    op = case['op']
+    br = []
+    f = {'op': op}
+    if op == 'dual':
+        k = (case['n_rdm'] is not None) + (case['n_pattern'] is not None)
+        br.append(['dual:plain', 'dual:one_n', 'dual:small_sample'][k])
+    elif op == 'correct1d':
+        br.append('c1d:' + ('both' if case['n_rdm'] and case['n_pattern'] else
+                            'pattern' if case['n_pattern'] else 'rdm' if case['n_rdm'] else 'none'))
+    elif op == 'contrast':
+        br.append('contrast')
+    elif op == 'extract':
+        k = case['var_kind']
+        br.append(f'extract:{k}' + ('_nc' if case['nc'] else ''))
+        if k == '3d' and case['n_rdm'] and case['n_pattern']:
+            br.append('extract:3d_small_sample')
+        f.update(var_kind=k, nc=case['nc'], m=case['m'])
+    elif op in ('result', 'boot', 'ranksum'):
+        ev = _arr(case['evals'])
+        nan_rows = bool(np.any(np.all(np.isnan(ev.reshape(ev.shape[0], -1)), axis=1)))
+        flat = ev.reshape(ev.shape[0], -1)
+        nan_folds = bool(np.any(np.isnan(flat[~np.all(np.isnan(flat), axis=1)])))
+        nc_per_sample = np.asarray(_arr(case['noise_ceiling'])).ndim > 1
+        f.update(m=ev.shape[1], ndim=ev.ndim, nan_rows=nan_rows, nan_folds=nan_folds,
+                 nc_per_sample=bool(nc_per_sample), identity_perm=case['perm'] == sorted(case['perm']))
+        if op == 'result':
+            f.update(cv_method=case['cv_method'], var_kind=case['var_kind'], nc_rows=case['nc_rows'])
+            br.append('result:var_' + case['var_kind'])
+            br.append(f'result:ndim{ev.ndim}')
+            if case['nc_rows']:
+                br.append('result:nc_rows')
+            if nan_rows:
+                br.append('result:nan_rows')
+            if nan_folds:
+                br.append('result:nan_folds')
+            if case['cv_method'] == 'fixed':
+                br.append('result:fixed')
+            if not f['identity_perm']:
+                br.append('result:perm')
+        elif op == 'boot':
+            br.append('boot:nc_per_sample' if nc_per_sample else 'boot:nc_scalar')
+            if nan_rows:
+                br.append('boot:nan_rows')
+            if ev.ndim >= 3:
+                br.append('boot:ndim3')
+        else:
+            br.append('ranksum')
+    elif op == 'evaluator':
+        f.update(which=case['which'], n_rdm=case['n_rdm'], n_cond=case['n_cond'], m=len(case['models']),
+                 n_cond_lt_n_rdm=case['n_cond'] < case['n_rdm'])
+        br.append('evaluator:' + case['which'])
+        if case['n_cond'] < case['n_rdm']:
+            br.append('evaluator:n_cond_lt_n_rdm')
+        if case['n_rdm'] < case['n_cond']:
+            br.append('evaluator:n_rdm_lt_n_cond')
+    elif op == 'fixed':
+        m, n = len(case['x']), len(case['x'][0])
+        f.update(m=m, n_rdm=n, n_cond=case['n_cond'], reload=bool(case.get('reload')),
+                 n_cond_lt_n_rdm=case['n_cond'] < n)
+        br.append('fixed:one_model' if m == 1 else 'fixed:multi')
+        if case.get('reload'):
+            br.append('fixed:reload')
+    f['branches'] = br
+    return f
 
 
 def nontrivial_key(case, impl):
-    if case['op'] == 'correct1d' and not (case['n_rdm'] or case['n_pattern']):
+    op = case['op']
+    if op == 'correct1d' and not (case['n_rdm'] or case['n_pattern']):
         return None
-    return [case['op'], case['v'], case['n_rdm'], case['n_pattern']]
+    if op == 'contrast' and case['m'] < 2:
+        return None
+    if op in ('result', 'boot', 'ranksum') and len(case['perm']) == 1 and case.get('var') is None \
+            and op == 'result':
+        return None
+    return case
+
+
+# ---------------------------------------------------------------- oracle
+#
+# A direct transcription of the sentences of C06, evaluated on the real code only.
+
+def _bad(what, observed=None, expected=None, **feat):
+    return {'what': what, 'observed': observed, 'expected': expected, 'features': feat}
+
+
+def _has_none(x):
+    if isinstance(x, list):
+        return any(_has_none(y) for y in x)
+    return x is None
+
+
+def _is_exc(x):
+    return isinstance(x, dict) and 'exc' in x
+
+
+def _in01(p):
+    """every defined p-value lies in [0,1] (an all-ties bootstrap pair or an all-NaN effect has
+    no defined p-value: NaN)"""
+    a = np.asarray(deep(lambda v: np.nan if v is None else v, p), dtype=float)
+    a = a[~np.isnan(a)]
+    return bool(np.all((a >= -1e-12) & (a <= 1 + 1e-12)))
+
+
+def _same(a, b, rtol=1e-9, atol=1e-12):
+    if a is None or b is None:
+        return a is None and b is None
+    return close(a, b, rtol, atol)
+
+
+def _nan_aware_mean(ev, cv):
+    """plain loops: the average of a model's evaluations, NaN entries skipped (nested, last axis
+    first); failed bootstrap samples (NaN rows) dropped"""
+    def red(x):
+        if not isinstance(x, list):
+            return x
+        vals = [red(y) for y in x]
+        vals = [v for v in vals if v is not None]
+        return sum(vals) / len(vals) if vals else None
+    out = []
+    nB, m = len(ev), len(ev[0])
+    for j in range(m):
+        if cv in ('fixed', 'crossvalidation'):
+            # one row: average over subjects / folds
+            out.append(red([ev[r][j] for r in range(nB)]) if nB == 1 else None)
+        else:
+            rows = [red(ev[r][j]) for r in range(nB)]
+            rows = [v for v in rows if v is not None]
+            out.append(sum(rows) / len(rows) if rows else None)
+    return out
+
+
+def _check_perm(obs_id, obs_perm, perm, keys, what):
+    """permuting the models permutes every output accordingly"""
+    for k in keys:
+        a, b = obs_id.get(k), obs_perm.get(k)
+        if a is None or b is None:
+            if (a is None) != (b is None):
+                return _bad(f'{what}: {k} exists only for one order of the models')
+            continue
+        if _is_exc(a) or _is_exc(b):
+            if a != b:
+                return _bad(f'{what}: {k} raises for one order of the models only', b, a)
+            continue
+        A = np.asarray(a, dtype=float)
+        B = np.asarray(b, dtype=float)
+        if k == 'diff_var':
+            from scipy.spatial.distance import squareform
+            if A.size == 0:
+                continue
+            A, B = squareform(A), squareform(B)
+        want = A[np.ix_(perm, perm)] if (A.ndim == 2 and k in ('p_pair', 'diff_var')) else A[perm]
+        if want.shape != B.shape or not np.allclose(want, B, rtol=1e-7, atol=1e-10, equal_nan=True):
+            return _bad(f'{what}: {k} is not permuted with the models', _lst(B), _lst(want),
+                        violated='permutation')
+    return None
+
+
+def _oracle_pvals(obs, what, m):
+    for k in ('p_pair', 'p_zero', 'p_nc'):
+        p = obs.get(k)
+        if p is None:
+            continue
+        if _is_exc(p):
+            return _bad(f'{what}: {k} cannot be computed ({p["exc"]})', p, 'p-values in [0,1]',
+                        violated='exception', key=k)
+        if not _in01(p):
+            return _bad(f'{what}: {k} outside [0,1]', p, '[0,1]', violated='range', key=k)
+    pp = obs.get('p_pair')
+    if pp is not None and not _is_exc(pp):
+        A = np.asarray(deep(lambda v: np.nan if v is None else v, pp), dtype=float)
+        if A.shape != (m, m) or not np.allclose(A, A.T, equal_nan=True):
+            return _bad(f'{what}: pairwise p-values not symmetric', pp, violated='symmetry')
+        if not np.allclose(np.diag(A), 1):
+            return _bad(f'{what}: pairwise p-values without unit diagonal', pp, violated='diagonal')
+    return None
+
+
+def _oracle_result(case):
+    op = case['op']
+    tt = {'result': 't-test', 'boot': 'bootstrap', 'ranksum': 'ranksum'}[op]
+    perm = case['perm']
+    ev = case['evals']
+    m = len(ev[0])
+    o_id = _result_obs(case, tt)
+    o_pm = _result_obs(case, tt, perm)
+    if _is_exc(o_id) or _is_exc(o_pm):
+        return _bad('Result cannot be built', o_id, violated='exception')
+    has_var = case.get('var') is not None
+    for what, o in (('given order', o_id), ('permuted order', o_pm)):
+        if op == 'result' and not has_var:
+            continue
+        if op == 'boot' and len(_shape_of(ev)) > 2:
+            o = dict(o, p_zero=None, p_nc=None)     # not defined per model for >2-D arrays
+        r = _oracle_pvals(o, f'{tt} ({what})', m)
+        if r:
+            return r
+    keys = ['means', 'sem', 'model_var', 'diff_var', 'p_pair', 'p_zero', 'p_nc']
+    if op == 'boot' and len(_shape_of(ev)) > 2:
+        keys = ['means', 'p_pair']
+    if op == 'result' and not has_var:
+        keys = ['means']
+    r = _check_perm(o_id, o_pm, perm, keys, tt)
+    if r:
+        return r
+    if op == 'boot' and m >= 2:
+        # symmetry of the test itself: exchanging two models must not change their p-value
+        for i, j in itertools.combinations(range(m), 2):
+            tr = list(range(m))
+            tr[i], tr[j] = j, i
+            o_tr = _result_obs(case, tt, tr)
+            a, b = o_id['p_pair'], o_tr.get('p_pair') if not _is_exc(o_tr) else None
+            if b is None or _is_exc(a) or _is_exc(b):
+                continue
+            if not _same(a[i][j], b[i][j]):
+                return _bad(f'bootstrap pair test of models {i},{j} changes when the two are exchanged',
+                            b[i][j], a[i][j], violated='permutation')
+    # means are the NaN-aware averages
+    want = _nan_aware_mean(ev, case.get('cv_method', 'bootstrap'))
+    got = o_id['means']
+    if not _is_exc(got) and all(w is not None for w in want):
+        if first_diff(got, want, 1e-9, 1e-12):
+            return _bad('get_means is not the NaN-aware average of the evaluations', got, want,
+                        violated='means')
+    if op != 'result' or not has_var:
+        return None
+    # standard errors non-negative and equal to sqrt(model_var)
+    sem = np.asarray(o_id['sem'], dtype=float)
+    if np.any(sem < 0) or np.any(np.isnan(sem)):
+        return _bad('negative / undefined standard error', o_id['sem'], violated='sem')
+    # the variances are the contrasts of the stored covariance
+    r = _oracle_extract({'var': case['var'], 'nc': case['nc_rows'], 'm': m, 'n_rdm': case['n_rdm'],
+                         'n_pattern': case['n_pattern']},
+                        {'model': o_id['model_var'], 'diff': o_id['diff_var'], 'nc': o_id['nc_var']})
+    if r:
+        return r
+    # the three t-tests use the effect and the variance that belong to them: model variance
+    # (one-sided, against 0), pair-difference variance (two-sided), model-versus-LOWER-ceiling
+    # variance (two-sided, against the mean lower ceiling)
+    flat = _arr(ev).reshape(len(ev), -1)
+    if not np.any(np.isnan(flat[~np.all(np.isnan(flat), axis=1)])) and all(w is not None for w in want):
+        eff = np.array(want, dtype=float)
+        mv = np.asarray(o_id['model_var'], dtype=float)
+        dv = np.asarray(o_id['diff_var'], dtype=float)
+        nv = np.asarray(o_id['nc_var'], dtype=float)
+        dof = case['dof']
+        with warnings.catch_warnings():
+            warnings.simplefilter('ignore')
+            c = float(np.nanmean(_arr(case['noise_ceiling'])[0]))
+            e_zero = 1 - sst.t.cdf(eff / np.sqrt(np.maximum(mv, EPS)), dof)
+            e_nc = 2 * (1 - sst.t.cdf(np.abs(eff - c) / np.sqrt(np.maximum(nv[:, 0], EPS)), dof))
+            e_pair = np.ones((m, m))
+            for k, (i, j) in enumerate(itertools.combinations(range(m), 2)):
+                e_pair[i, j] = e_pair[j, i] = 2 * (1 - sst.t.cdf(
+                    abs(eff[i] - eff[j]) / math.sqrt(max(dv[k], EPS)), dof))
+        for k, e in (('p_zero', e_zero), ('p_nc', e_nc), ('p_pair', e_pair)):
+            d = first_diff(o_id[k], e.tolist(), PRTOL, 1e-10, k)
+            if d:
+                return _bad(f'{k} is not the t-test of the effect with its own variance', o_id[k],
+                            e.tolist(), violated='t_formula', key=k, diff=d)
+    # a larger effect at equal variance never yields a larger p-value
+    res = _mk_result(case)
+    E = res.evaluations
+    with warnings.catch_warnings():
+        warnings.simplefilter('ignore')
+        c = float(np.nanmean(res.noise_ceiling[0]))
+        checks = [
+            ('t_test_0', iu.t_test_0(E, res.model_var, res.dof), iu.t_test_0(E + 0.25, res.model_var, res.dof)),
+            ('t_tests', iu.t_tests(E, res.diff_var, res.dof), iu.t_tests(E * 1.5, res.diff_var, res.dof)),
+            ('t_test_nc', iu.t_test_nc(E, res.noise_ceil_var[:, 0], c, res.dof),
+             iu.t_test_nc(c + 1.5 * (E - c), res.noise_ceil_var[:, 0], c, res.dof))]
+    for name, p0, p1 in checks:
+        if np.any(np.asarray(p1) > np.asarray(p0) + 1e-9):
+            return _bad(f'{name}: a larger effect at equal variance gives a larger p-value',
+                        _lst(p1), _lst(p0), violated='monotone')
+    # contract of the external CDF, sampled
+    ts = np.linspace(-6, 6, 25)
+    cd = sst.t.cdf(ts, case['dof'])
+    if np.any(np.diff(cd) < 0) or abs(sst.t.cdf(0, case['dof']) - 0.5) > 1e-12 or cd.min() < 0 or cd.max() > 1:
+        return _bad('scipy t CDF contract broken')
+    return None
+
+
+def _oracle_extract(case, got=None):
+    """contrasts of the stored covariance by plain loops over Fractions"""
+    var = np.array(case['var'], dtype=float)
+    nc, m = case['nc'], case['m']
+    if got is None:
+        got = run_impl(dict(case, op='extract'))
+        if _is_exc(got):
+            return _bad('extract_variances raises', got, violated='exception')
+    ns = [n for n in (case['n_rdm'], case['n_pattern']) if n]
+    fac = F(min(ns), min(ns) - 1) if ns else F(1)
+
+    def contrasts(V):
+        """V: Fraction matrix (m or m+2 square) -> model, diff, nc contrasts"""
+        mod = [V[i][i] for i in range(m)]
+        dif = [V[i][i] + V[j][j] - V[i][j] - V[j][i] for i in range(m) for j in range(i + 1, m)]
+        if nc:
+            ncv = [[V[i][i] - 2 * V[i][m + c] + V[m + c][m + c] for c in (0, 1)] for i in range(m)]
+        else:
+            ncv = [[V[i][i], V[i][i]] for i in range(m)]
+        return mod, dif, ncv
+
+    def frac_mat(a):
+        return [[F(x) for x in row] for row in a.tolist()]
+
+    if var.ndim <= 1:
+        v = [F(x) for x in np.atleast_1d(var).tolist()]
+        V = [[v[i] if i == j else F(0) for j in range(len(v))] for i in range(len(v))]
+        want = contrasts(V)
+    elif var.ndim == 2:
+        want = contrasts(frac_mat(var))
+    else:
+        c0, c1, c2 = (contrasts(frac_mat(var[k])) for k in range(3))
+        both = case['n_rdm'] and case['n_pattern']
+        f1 = F(case['n_rdm'], case['n_rdm'] - 1) if both else F(1)
+        f2 = F(case['n_pattern'], case['n_pattern'] - 1) if both else F(1)
+        for name, k in (('model', 0), ('diff', 1), ('nc', 2)):
+            g = np.asarray(got[name], dtype=float).ravel()
+            a0 = np.array([float(x) for x in np.array(c0[k], dtype=object).ravel()])
+            a1 = np.array([float(f1 * x) for x in np.array(c1[k], dtype=object).ravel()])
+            a2 = np.array([float(f2 * x) for x in np.array(c2[k], dtype=object).ravel()])
+            if g.shape != a0.shape:
+                return _bad(f'dual bootstrap {name} variances have the wrong shape', g.shape, a0.shape)
+            tol = 1e-9 * (1 + np.abs(a0))
+            if np.any(g > a0 + tol):
+                return _bad(f'dual bootstrap {name} variance exceeds the two-factor contrast',
+                            _lst(g), _lst(a0), violated='dual_upper')
+            for a in (a1, a2):
+                if np.any((a <= a0 + tol) & (g < a - tol)):
+                    return _bad(f'dual bootstrap {name} variance below a corrected single-factor '
+                                'variance that is below the two-factor one', _lst(g), _lst(a),
+                                violated='dual_lower')
+        return None
+    for name, w in zip(('model', 'diff', 'nc'), want):
+        wf = deep(lambda x: float(fac * x), w)
+        d = first_diff(got[name], wf, 1e-9, 1e-12, name)
+        if d:
+            return _bad(f'{name} variance is not the n/(n-1)-corrected contrast of the stored covariance',
+                        got[name], wf, violated='contrast', diff=d)
+    return None
+
+
+def _oracle_fixed(case):
+    """eval_fixed against the classical across-subject t statistics (scipy as reference)"""
+    o = _fixed_obs(case)
+    if _is_exc(o):
+        return _bad('eval_fixed raises', o, violated='exception')
+    x = np.array(case['x'], dtype=float)
+    m, n = x.shape
+    if o['dof'] != n - 1:
+        return _bad('dof of the fixed evaluation is not n_subjects - 1', o['dof'], n - 1, violated='dof')
+    if first_diff(o['means'], x.mean(axis=1).tolist(), 1e-9, 1e-12):
+        return _bad('means of the fixed evaluation', o['means'], x.mean(axis=1).tolist(), violated='means')
+    c = case['nc'][0]
+    with warnings.catch_warnings():
+        warnings.simplefilter('ignore')
+        sem = sst.sem(x, axis=1)
+        ok = sem ** 2 > 1e-12        # the code clamps variances at machine epsilon; classical t undefined at 0
+        d = first_diff(o['sem'], sem.tolist(), 1e-9, 1e-12)
+        if d:
+            return _bad('SEM of the fixed evaluation is not the classical s/sqrt(n)', o['sem'], sem.tolist(),
+                        violated='fixed_sem', reload=bool(case.get('reload')))
+        for i in range(m):
+            if not ok[i]:
+                continue
+            p0 = sst.ttest_1samp(x[i], 0, alternative='greater').pvalue
+            if not close(o['p_zero'][i], p0, 1e-7, 1e-12):
+                return _bad('p against zero is not the one-sided one-sample t-test', o['p_zero'][i], float(p0),
+                            violated='fixed_p', reload=bool(case.get('reload')))
+            pc = sst.ttest_1samp(x[i], c).pvalue
+            if not close(o['p_nc'][i], pc, 1e-7, 1e-12):
+                return _bad('p against the noise ceiling is not the two-sided one-sample t-test',
+                            o['p_nc'][i], float(pc), violated='fixed_p', reload=bool(case.get('reload')))
+            for j in range(i + 1, m):
+                if np.var(x[i] - x[j]) < 1e-12:
+                    continue
+                pr = sst.ttest_rel(x[i], x[j]).pvalue
+                for a, b in ((i, j), (j, i)):
+                    if not close(o['p_pair'][a][b], pr, 1e-7, 1e-12):
+                        return _bad('pairwise p is not the paired t-test', o['p_pair'][a][b], float(pr),
+                                    violated='fixed_p', reload=bool(case.get('reload')))
+    for i in range(m):
+        if not close(o['p_pair'][i][i], 1.0):
+            return _bad('pairwise p-values without unit diagonal', o['p_pair'], violated='diagonal')
+    return None
+
+
+# the count(s) each evaluation function resamples over, hence corrects for (docstring of
+# extract_variances: "If you bootstrapped only one factor only pass the N for that factor!")
+RESAMPLED = {'fixed': 'rdm', 'bootstrap_rdm': 'rdm', 'bootstrap_crossval_rdm': 'rdm',
+             'bootstrap_pattern': 'pattern', 'bootstrap_crossval_pattern': 'pattern',
+             'bootstrap': 'both', 'bootstrap_crossval': 'both', 'dual_bootstrap': 'both'}
+
+
+def _oracle_evaluator(case):
+    o = _evaluator_obs(case)
+    if _is_exc(o):
+        return _bad('evaluation function raises', o, violated='exception')
+    if o['variances'] is None or _has_none(o['variances']):
+        return None         # too few valid bootstrap samples: the covariance itself is undefined
+    f = RESAMPLED[case['which']]
+    m = len(case['models'])
+    var = np.asarray(_arr(o['variances']), dtype=float)
+    sub = {'var': var.tolist() if var.ndim else float(var), 'm': m,
+           'nc': bool(var.ndim) and var.shape[-1] != m,
+           'n_rdm': case['n_rdm'] if f in ('rdm', 'both') else None,
+           'n_pattern': case['n_cond'] if f in ('pattern', 'both') else None}
+    r = _oracle_extract(sub, {'model': o['model_var'], 'diff': o['diff_var'], 'nc': o['nc_var']})
+    if r:
+        r['what'] = f"{case['which']}: " + r['what'] + ' (n of the resampled factor)'
+        r['features'] = dict(r.get('features', {}), evaluator=case['which'])
+        return r
+    sem = np.asarray(o['sem'], dtype=float)
+    want = np.sqrt(np.maximum(np.asarray(o['model_var'], dtype=float), 0))
+    if np.any(sem < 0) or not np.allclose(sem, want, rtol=1e-9, atol=1e-12):
+        return _bad('SEM is not the square root of the model variance', o['sem'], want.tolist(), violated='sem')
+    return None
 
 
 def oracle(case):
-    """direct transcription of the C06 sentences about these helpers, on the real code"""
+    op = case['op']
     tol = 1e-9
-    if case['op'] == 'dual':
+    if op == 'dual':
         v0, v1, v2 = (_fl(x) for x in case['v'])
         out = run_impl(case)
         nr, npat = case['n_rdm'], case['n_pattern']
         if out > v0 + tol:
-            return {'what': 'dual bootstrap variance exceeds the two-factor variance',
-                    'observed': out, 'bound': v0}
-        if nr and npat:
-            s1, s2 = nr / (nr - 1) * v1, npat / (npat - 1) * v2
-        else:
-            s1, s2 = v1, v2
+            return _bad('dual bootstrap variance exceeds the two-factor variance', out, v0)
+        s1, s2 = (nr / (nr - 1) * v1, npat / (npat - 1) * v2) if nr and npat else (v1, v2)
         for s in (s1, s2):
             if s <= v0 + tol and out < s - tol:
-                return {'what': 'dual bootstrap variance below a (corrected) single-factor variance',
-                        'observed': out, 'bound': s}
+                return _bad('dual bootstrap variance below a (corrected) single-factor variance', out, s)
         return None
-    v = _fl(case['v'])
-    out = run_impl(case)
-    ns = [n for n in (case['n_rdm'], case['n_pattern']) if n]
-    want = v if not ns else min(ns) / (min(ns) - 1) * v
-    if abs(out - want) > tol:
-        return {'what': 'variance correction is not n/(n-1) with the documented n',
-                'observed': out, 'expected': want}
-    return None
+    if op == 'correct1d':
+        v = _fl(case['v'])
+        out = run_impl(case)
+        ns = [n for n in (case['n_rdm'], case['n_pattern']) if n]
+        want = v if not ns else min(ns) / (min(ns) - 1) * v
+        if abs(out - want) > tol:
+            return _bad('variance correction is not n/(n-1) with the documented n', out, want)
+        return None
+    if op == 'contrast':
+        m = case['m']
+        got = run_impl(case)
+        want = [[(1.0 if k == i else -1.0 if k == j else 0.0) for k in range(m)]
+                for i in range(m) for j in range(i + 1, m)]
+        if got != want:
+            return _bad('pairwise_contrast rows are not e_i - e_j in triu order', got, want)
+        return None
+    if op == 'extract':
+        return _oracle_extract(case)
+    if op in ('result', 'boot', 'ranksum'):
+        return _oracle_result(case)
+    if op == 'fixed':
+        return _oracle_fixed(case)
+    if op == 'evaluator':
+        return _oracle_evaluator(case)
+    raise ValueError(op)
+
+
+# ---------------------------------------------------------------- shrinking
+
+def shrink(case, still_fails):
+    """fewer bootstrap samples / subjects, the identity permutation, simpler ceilings"""
+    op = case['op']
+    cur = case
+    if op in ('result', 'boot', 'ranksum'):
+        if cur['perm'] != sorted(cur['perm']):
+            c = dict(cur, perm=sorted(cur['perm']))
+            if still_fails(c):
+                cur = c
+        changed = True
+        while changed and len(cur['evals']) > 2:
+            changed = False
+            for r in range(len(cur['evals'])):
+                c = copy.deepcopy(cur)
+                del c['evals'][r]
+                nc = c['noise_ceiling']
+                if isinstance(nc[0], list):
+                    del nc[0][r]
+                    del nc[1][r]
+                if len(c['evals']) >= 2 and still_fails(c):
+                    cur, changed = c, True
+                    break
+        if isinstance(cur['noise_ceiling'][0], list):
+            c = copy.deepcopy(cur)
+            vals = [v for v in c['noise_ceiling'][0] if v is not None] or [0.5]
+            c['noise_ceiling'] = [vals[0], 2.0]
+            if still_fails(c):
+                cur = c
+    elif op == 'fixed':
+        changed = True
+        while changed and len(cur['x'][0]) > 2:
+            changed = False
+            for s in range(len(cur['x'][0])):
+                c = copy.deepcopy(cur)
+                for row in c['x']:
+                    del row[s]
+                if still_fails(c):
+                    cur, changed = c, True
+                    break
+        while len(cur['x']) > 1:
+            c = copy.deepcopy(cur)
+            c['x'].pop()
+            if still_fails(c):
+                cur = c
+            else:
+                break
+    return cur
